@@ -35,7 +35,7 @@ def arrival_order(rep, tier):
   import json as _json
   from vlib import logica_run
   r = common.rng('c07-arrival')
-  n_tables = 2 if tier == 'quick' else 40
+  n_tables = 2 if tier == 'quick' else 8
   runs = bad = 0
   for t in range(n_tables):
     n = r.choice([4, 5])
@@ -230,7 +230,7 @@ def unnest_order(rep, tier):
   (theorem C07_from_order_independent_of_conjunct_order is about the model Core/Unnest.v, tied in the C09 check)."""
   from props import unnesttie
   r = common.rng('c07-unnest-order')
-  n = 300 if tier == 'quick' else 20000
+  n = 300 if tier == 'quick' else 5000
   bad = 0
   for _ in range(n):
     items = unnesttie.gen_case(r)
@@ -247,7 +247,7 @@ def unnest_order(rep, tier):
           'how': 'props.unnesttie.real_sort (RuleStructure.SortUnnestings)'})
   # the theorem about this order (C07_from_order_independent_of_conjunct_order) is about Core/Unnest.v: the model and
   # the real function must agree on the same inputs
-  tie = unnesttie.run_tie(r, 150 if tier == 'quick' else 5000)
+  tie = unnesttie.run_tie(r, 150 if tier == 'quick' else 2000)
   rep.coverage['unnest_order_tie'] = {k: v for k, v in tie.items() if k != 'mismatches'}
   if tie['mismatches'] or tie['error']:
     m = (tie['mismatches'] or [None])[0]
@@ -395,7 +395,7 @@ def run(tier, replay=None):
       ('rename_predicates', lambda prog, r: V.rename(prog, r, variables=False, predicates=True)),
       ('rename_predicates_long_names', lambda prog, r: V.rename(prog, r, variables=False, predicates=True, long_names=True)),
   ]
-  K.run_core(rep, PID, tier, PROFILE, variants, 60, 220, 'c07', replay=replay, ok=ok, info=info, metamorphic=True)
+  K.run_core(rep, PID, tier, PROFILE, variants, 60, 150, 'c07', replay=replay, ok=ok, info=info, metamorphic=True)
   if not replay:
     arrival_order(rep, tier)
     sibling_scopes(rep, tier)
